@@ -1,10 +1,11 @@
 #!/bin/bash
 # tools/sweepseeded.sh [pattern] : runs each kept sub-agent change under /verif/seeded against the check of the
-# property it was written to break (and, with ALSO="C10 C05", further checks); one line per (change, check).
+# property it was written to break and the further checks named in its meta.json; one line per (change, check).
 cd /verif
 pat="${1:-}"
 for d in seeded/*${pat}*/; do
   d="${d%/}"
-  id=$(python3 -c "import json;print(json.load(open('$d/meta.json'))['breaks'])")
-  tools/runmut.sh "$d/patch.diff" $id ${ALSO:-}
+  [ -f "$d/meta.json" ] || continue
+  ids=$(python3 -c "import json;m=json.load(open('$d/meta.json'));print(' '.join([m['breaks']]+m.get('also_run_against',[])))")
+  tools/runmut.sh "$d/patch.diff" $ids
 done
